@@ -156,6 +156,18 @@ func (ds *dataStore) leaveListBlock(ws *wakeSignal) {
 	ds.mu.Lock()
 	defer ds.mu.Unlock()
 	ds.waitingClients.disposeWakeSignal(ws)
+
+	// A wake-up takes a client out of the queues of all its keys, and the client then
+	// pops from only one of them (or from none, if it timed out). Any of its keys that
+	// still holds elements may have other clients queued that nobody will signal any
+	// more, so the leaving client signals them.
+	for _, name := range ws.names {
+		if sk, exists := ds.getLiveStoreKey(name); exists {
+			if list := sk.getList(); list != nil && list.count > 0 {
+				ds.waitingClients.unblock(name, list.count)
+			}
+		}
+	}
 }
 
 func (ds *dataStore) unblockListUnlocked(keyName string, elements int) {
